@@ -10,7 +10,10 @@ package main
 
 import (
 	"fmt"
+	"regexp"
 	"strings"
+
+	"github.com/pentops/j5/lib/id62"
 
 	"github.com/bufbuild/protovalidate-go"
 	"google.golang.org/protobuf/reflect/protoreflect"
@@ -39,14 +42,14 @@ func obsFail(c compiled) string {
 
 // compileProps compiles the properties as one object (plus the sentinel); when
 // that fails, each property alone, so that the failure is attributed.
-func compileProps(props []genDecl) []unitResult {
+func compileProps(env EnumEnv, props []genDecl) []unitResult {
 	build := func(ps []genDecl) (unitResult, compiled) {
 		var pl []Prop
 		for _, p := range ps {
 			pl = append(pl, p.P)
 		}
 		pl = append(pl, sentinel)
-		c, _ := compileRoot("object", theEnum, "", pl)
+		c, _ := compileRoot("object", env, "", pl)
 		u := unitResult{props: ps}
 		if c.err != nil || c.panic != nil {
 			for range ps {
@@ -88,29 +91,54 @@ func c12Sig(p genDecl, fv FValue, declared bool, vd verdict) string {
 	if p.P.Opt && fv.Absent && declared && !vd.Accept {
 		return "C12 optional field not populated: validator applies the rules to the zero value (proto3_optional emitted without a synthetic oneof, so the compiled field has no presence)"
 	}
-	shape := "field"
-	if p.P.PK == PArray {
-		shape = "array"
-	} else if p.P.PK == PMap {
-		shape = "map"
-	}
 	dir := "rejects a value the declared rules allow"
 	if !declared {
 		dir = "accepts a value the declared rules forbid"
 	}
-	return fmt.Sprintf("C12 %s of %s: validator %s [%s]", shape, itemTypeName[p.P.T.Kind], dir, strings.Join(vd.Ids, ","))
+	return fmt.Sprintf("C12 %s of %s: validator %s [%s]", shapeName(p.P), itemTypeName[p.P.T.Kind], dir, strings.Join(vd.Ids, ","))
+}
+
+func shapeName(p Prop) string {
+	switch p.PK {
+	case PArray:
+		return "array"
+	case PMap:
+		return "map"
+	}
+	return "field"
+}
+
+// errorSig: the validator returned an error instead of a verdict. The two known
+// classes get a narrow signature; anything else is reported under its own text.
+func errorSig(p Prop, vd verdict) string {
+	switch {
+	case vd.Err == "compile" && !patternsOK(p):
+		kind := "string rules.pattern"
+		if p.T.Kind == TKey {
+			kind = "key:custom format.custom.pattern"
+		}
+		return "C12 " + kind + " that is not a valid RE2 expression compiles: the validator returns a compilation error for every message of the type"
+	case vd.Err == "runtime" && uniqueOnMessages(p):
+		return fmt.Sprintf("C12 array of %s with rules.uniqueItems = true: the validator returns a runtime error instead of a verdict (repeated.unique has no overload for lists of messages)", itemTypeName[p.T.Kind])
+	}
+	return fmt.Sprintf("C12 %s of %s: validator returns a %s error instead of a verdict: %s", shapeName(p), itemTypeName[p.T.Kind], vd.Err, firstWords(vd.Problem, 8))
+}
+
+func specTerm(judged bool, declared bool) string {
+	if !judged {
+		return "None"
+	}
+	return "(Some " + vh.BoolTerm(declared) + ")"
 }
 
 func runC12(cfg *vh.Config) error {
 	res := vh.NewResult("C12", cfg.Seed)
-	res.Rule = "declarations: integer (4 formats; minimum/maximum absent, 0, format min/max, near them; exclusive flags absent/false/true), string (min/max length absent/0/1-6, pattern), bytes, bool const, enum in/not-in (short and prefixed names), key (none/informal/custom/uuid/id62, primary key), message-typed fields; each plain, required, optional, or as array (min/max items absent/0/1-6, unique absent/false/true); values: below/at/above every bound, multi-byte strings, (non-)matching patterns, undefined enum numbers, absent vs zero, lists with and without duplicates; non-trivial = distinct declaration carrying at least one rule, required flag or format"
+	res.Rule = "declarations: integer (4 formats; minimum/maximum absent, 0, format min/max, near them; exclusive flags absent/false/true), string (min/max length absent/0/1-6, pattern incl. patterns RE2 rejects), bytes, bool const, enum in/not-in (short and prefixed names), key (none/informal/custom incl. ill-formed patterns/uuid/id62, primary key), float and message-typed fields; each plain, required, optional, or as array (min/max items absent/0/1-6, unique absent/false/true, also on float and message items) or map; values: below/at/above every bound, multi-byte strings, (non-)matching patterns, undefined enum numbers, absent vs zero, +0/-0/NaN, lists with and without duplicates (messages with equal and different content); non-trivial = distinct declaration carrying at least one rule, required flag or format"
 	cf := &vh.CasesFile{
 		Header: "From Coq Require Import String List NArith ZArith.\nFrom J5V.lib Require Import Outcome.\nFrom J5V.model Require Import RulesDecl RulesCorr.",
 		Type:   "c12case",
 		Check:  "c12_check",
 	}
-	// consecutive seeds of vh.NewRand are one draw apart (state = seed*G + c, each draw adds G):
-	// fork, so that VERIF_SEED=1,2,3 are unrelated streams
 	r := cfg.R.Fork("C12")
 	val, err := protovalidate.New()
 	if err != nil {
@@ -120,10 +148,177 @@ func runC12(cfg *vh.Config) error {
 	distinct := vh.Distinct{}
 	caseNo := 0
 	evals := 0
+	env := theEnum // per compile unit: with or without an explicit zero option
+
+	// ---- whole messages: one candidate value per field
+	messages := func(ur unitResult) {
+		if len(ur.props) < 2 {
+			return
+		}
+		cands := make([][]FValue, len(ur.props))
+		judged := true
+		var firstBad *Prop
+		for i, p := range ur.props {
+			if !ur.ok[i] {
+				return
+			}
+			cands[i] = fieldValues(r, p.P)
+			if len(cands[i]) == 0 {
+				return
+			}
+			if !keyPlacementOK(p.P) || !patternsOK(p.P) {
+				judged = false
+			}
+			if firstBad == nil && (!patternsOK(p.P) || uniqueOnMessages(p.P)) {
+				pp := p.P
+				firstBad = &pp
+			}
+		}
+		var msgs, outs, decls []string
+		for i, p := range ur.props {
+			outs = append(outs, foutTerm(ur.md.Fields().Get(i)))
+			decls = append(decls, p.P.Coq())
+		}
+		var src []string
+		for _, p := range ur.props {
+			src = append(src, p.P.J5S(env))
+		}
+		reported := map[string]bool{}
+		for k := 0; k < 6; k++ {
+			fvs := make([]FValue, len(ur.props))
+			var shown, terms []string
+			declared := true
+			for i, p := range ur.props {
+				fvs[i] = vh.Pick(r, cands[i])
+				if judged && r.Chance(75) { // mostly values the declaration allows, so that whole messages are accepted often enough
+					var good []FValue
+					for _, c := range cands[i] {
+						if ruleSem(env, p.P, c) {
+							good = append(good, c)
+						}
+					}
+					if len(good) > 0 {
+						fvs[i] = vh.Pick(r, good)
+					}
+				}
+				if judged && !ruleSem(env, p.P, fvs[i]) {
+					declared = false
+				}
+				shown = append(shown, fvs[i].String())
+				terms = append(terms, fvs[i].Coq())
+			}
+			vd := validateMessage(val, ur.md, fvs)
+			evals++
+			res.Count("message")
+			res.Count("message-" + vd.String())
+			vt, ok := vd.Coq()
+			input := map[string]any{"j5s": strings.Join(src, ""), "values": shown}
+			switch {
+			case !ok:
+				res.Fail(vh.Failure{Case: caseNo, Stream: "message", Sig: "C12 message: the validator fails on a whole message: " + firstWords(vd.Problem, 8),
+					Clause: "the standard validator evaluates the compiled constraints", Input: input, Got: vd.Problem})
+				continue
+			case vd.Err != "":
+				sig := "C12 message: validator returns a " + vd.Err + " error on a message all of whose properties it can evaluate: " + firstWords(vd.Problem, 8)
+				if firstBad != nil {
+					sig = errorSig(*firstBad, vd)
+				}
+				if !reported[sig] {
+					reported[sig] = true
+					res.Fail(vh.Failure{Case: caseNo, Stream: "message", Sig: sig,
+						Clause: "the validator returns a verdict for every message of the compiled type", Input: input, Got: vd.Problem})
+				}
+			case judged && declared != vd.Accept:
+				res.Fail(vh.Failure{Case: caseNo, Stream: "message", Sig: "C12 message: the validator's verdict on a whole message differs from the conjunction of the declared rules of its properties",
+					Clause: "the validator accepts a message iff every property satisfies its declared rules", Input: input,
+					Got:    map[string]any{"validator_accepts": vd.Accept, "violations": vd.Ids}, Want: map[string]any{"declared_rules_satisfied": declared}})
+			}
+			msgs = append(msgs, fmt.Sprintf("([%s], %s, %s)", strings.Join(terms, ";"), vt, specTerm(judged, declared)))
+		}
+		cf.Terms = append(cf.Terms, fmt.Sprintf("C12Obj %s [%s] [%s] [%s]", env.Coq(), strings.Join(decls, ";"), strings.Join(outs, ";"), strings.Join(msgs, ";")))
+		res.Cases = append(res.Cases, vh.CaseRec{Case: caseNo, Stream: "message", Input: map[string]any{"j5s": strings.Join(src, "")}, Impl: map[string]any{"messages": len(msgs)}})
+		caseNo++
+	}
+
+	// ---- one property at a time
+	fields := func(ur unitResult) {
+		for i, p := range ur.props {
+			idx := i
+			res.Count("decl")
+			res.Count("decl:" + itemTypeName[p.P.T.Kind])
+			if p.Class != "" {
+				res.Count("class:" + p.Class)
+			}
+			dterm := p.P.Coq()
+			if p.P.Req || p.P.Opt || p.P.PK != PSingle || p.P.T.Int != nil || p.P.T.Str != nil || p.P.T.Len != nil || p.P.T.HasBool || p.P.T.Enum != nil || (p.P.T.Kind == TKey && p.P.T.KF != KNone) {
+				distinct.Add(dterm)
+			}
+			var pairs []string
+			var implVals []map[string]any
+			if ur.ok[i] {
+				res.Count("compiled")
+				fd := ur.md.Fields().Get(i)
+				judged := keyPlacementOK(p.P) && patternsOK(p.P)
+				if !judged {
+					res.Count("not-judged")
+				}
+				reported := map[string]bool{}
+				for _, fv := range fieldValues(r, p.P) {
+					vd := validateField(val, ur.md, fd, fv)
+					evals++
+					res.Count(vd.String())
+					declared := judged && ruleSem(env, p.P, fv)
+					input := map[string]any{"j5s": p.P.J5S(env), "value": fv.String()}
+					vt, ok := vd.Coq()
+					switch {
+					case !ok:
+						res.Fail(vh.Failure{Case: caseNo, Stream: "validate", Sig: "C12 validator fails: " + firstWords(vd.Problem, 6),
+							Clause: "the standard validator evaluates the compiled constraints", Input: input, Got: vd.Problem})
+						continue
+					case vd.Err != "":
+						if sig := errorSig(p.P, vd); !reported[sig] {
+							reported[sig] = true
+							res.Fail(vh.Failure{Case: caseNo, Stream: "validate", Sig: sig,
+								Clause: "the validator returns a verdict (accept iff the declared rules hold) for every value of the compiled field", Input: input,
+								Got: vd.Problem, Want: map[string]any{"declared_rules_satisfied": specTerm(judged, declared)}})
+						}
+					case judged && declared != vd.Accept:
+						res.Fail(vh.Failure{Case: caseNo, Stream: "validate", Sig: c12Sig(p, fv, declared, vd),
+							Clause: "the validator accepts a value iff it satisfies the declared rules", Input: input,
+							Got:    map[string]any{"validator_accepts": vd.Accept, "violations": vd.Ids}, Want: map[string]any{"declared_rules_satisfied": declared}})
+					}
+					pairs = append(pairs, fmt.Sprintf("(%s, %s, %s)", fv.Coq(), vt, specTerm(judged, declared)))
+					if len(implVals) < 6 {
+						implVals = append(implVals, map[string]any{"value": fv.String(), "validator": vd.String()})
+					}
+				}
+			} else {
+				res.Count("compile-failed")
+				if p.Class != "compile-error" {
+					res.Count("compile-failed-unexpected")
+					res.Fail(vh.Failure{Case: caseNo, Stream: "compile", Sig: "C12 valid field declaration does not compile: " + firstWords(ur.note, 10),
+						Clause: "for all valid j5s field declarations (the declaration compiles)", Input: map[string]any{"j5s": p.P.J5S(env)}, Got: ur.note})
+				}
+			}
+			cf.Terms = append(cf.Terms, fmt.Sprintf("C12Case %s %d %s %s [%s]", env.Coq(), idx, dterm, ur.obs[i], strings.Join(pairs, ";")))
+			res.Cases = append(res.Cases, vh.CaseRec{Case: caseNo, Stream: "decl", Input: map[string]any{"j5s": p.P.J5S(env), "class": p.Class, "index": idx},
+				Impl: map[string]any{"emitted": ur.obs[i], "verdicts": implVals, "note": ur.note}})
+			if p.Class == "" && ur.ok[i] {
+				res.Sample(map[string]any{"j5s": p.P.J5S(env), "emitted": ur.obs[i], "verdicts": implVals}, 6)
+			}
+			caseNo++
+		}
+	}
+
 	for u := 0; u < nUnits; u++ {
 		genAST = r.Chance(25)
 		if genAST {
 			res.Count("unit-via-ast")
+		}
+		env = theEnum
+		if r.Chance(30) {
+			env = theEnumZ
+			res.Count("unit-explicit-zero-option")
 		}
 		var props []genDecl
 		for i, n := 0, r.Range(2, 6); i < n; i++ {
@@ -131,13 +326,15 @@ func runC12(cfg *vh.Config) error {
 			if r.Chance(12) {
 				scope = "all"
 			}
-			props = append(props, genProp(r, fmt.Sprintf("f%d", i), scope, theEnum))
+			props = append(props, genProp(r, propName(r, i), scope, env))
 		}
-		// declarations expected not to compile go alone
+		// declarations expected not to compile go alone; so do those with an
+		// ill-formed pattern (they make every message of their type unvalidatable,
+		// which would hide the verdicts on the other fields)
 		var together []genDecl
 		var units [][]genDecl
 		for _, p := range props {
-			if p.Class == "compile-error" {
+			if p.Class == "compile-error" || p.Class == "unevaluable-pattern" {
 				units = append(units, []genDecl{p})
 			} else {
 				together = append(together, p)
@@ -147,136 +344,71 @@ func runC12(cfg *vh.Config) error {
 			units = append([][]genDecl{together}, units...)
 		}
 		for _, up := range units {
-			for _, ur := range compileProps(up) {
-				// ---- whole messages: one candidate value per field
-				allOK := len(ur.props) > 1
-				cands := make([][]FValue, len(ur.props))
-				for i, p := range ur.props {
-					if !ur.ok[i] || p.P.T.Kind == TFloat {
-						allOK = false
-						break
-					}
-					cands[i] = fieldValues(r, p.P)
-					if len(cands[i]) == 0 {
-						allOK = false
-						break
-					}
-				}
-				if allOK {
-					var msgs []string
-					var outs []string
-					for i := range ur.props {
-						outs = append(outs, foutTerm(ur.md.Fields().Get(i)))
-					}
-					for k := 0; k < 6; k++ {
-						fvs := make([]FValue, len(ur.props))
-						var shown, terms []string
-						declared := true
-						for i, p := range ur.props {
-							fvs[i] = vh.Pick(r, cands[i])
-							if r.Chance(75) { // mostly values the declaration allows, so that whole messages are accepted often enough
-								var good []FValue
-								for _, c := range cands[i] {
-									if ruleSem(theEnum, p.P, c) {
-										good = append(good, c)
-									}
-								}
-								if len(good) > 0 {
-									fvs[i] = vh.Pick(r, good)
-								}
-							}
-							if !ruleSem(theEnum, p.P, fvs[i]) {
-								declared = false
-							}
-							shown = append(shown, fvs[i].String())
-							terms = append(terms, fvs[i].Coq())
-						}
-						vd := validateMessage(val, ur.md, fvs)
-						evals++
-						if vd.Problem != "" {
-							continue
-						}
-						res.Count("message")
-						if vd.Accept {
-							res.Count("message-accept")
-						}
-						if declared != vd.Accept {
-							var src []string
-							for _, p := range ur.props {
-								src = append(src, p.P.J5S(theEnum))
-							}
-							res.Fail(vh.Failure{Case: caseNo, Stream: "message", Sig: "C12 message: the validator's verdict on a whole message differs from the conjunction of the declared rules of its properties",
-								Clause: "the validator accepts a message iff every property satisfies its declared rules", Input: map[string]any{"j5s": strings.Join(src, ""), "values": shown},
-								Got: map[string]any{"validator_accepts": vd.Accept, "violations": vd.Ids}, Want: map[string]any{"declared_rules_satisfied": declared}})
-						}
-						msgs = append(msgs, fmt.Sprintf("([%s], %s)", strings.Join(terms, ";"), vh.BoolTerm(vd.Accept)))
-					}
-					cf.Terms = append(cf.Terms, fmt.Sprintf("C12Obj %s [%s] [%s]", theEnum.Coq(), strings.Join(outs, ";"), strings.Join(msgs, ";")))
-					res.Cases = append(res.Cases, vh.CaseRec{Case: caseNo, Stream: "message", Input: map[string]any{"properties": len(ur.props)}, Impl: map[string]any{"messages": len(msgs)}})
-					caseNo++
-				}
-				for i, p := range ur.props {
-					idx := i
-					res.Count("decl")
-					res.Count("decl:" + itemTypeName[p.P.T.Kind])
-					if p.Class != "" {
-						res.Count("class:" + p.Class)
-					}
-					dterm := p.P.Coq()
-					if p.P.Req || p.P.Opt || p.P.PK != PSingle || p.P.T.Int != nil || p.P.T.Str != nil || p.P.T.Len != nil || p.P.T.HasBool || p.P.T.Enum != nil || (p.P.T.Kind == TKey && p.P.T.KF != KNone) {
-						distinct.Add(dterm)
-					}
-					var pairs []string
-					var implVals []map[string]any
-					if ur.ok[i] {
-						res.Count("compiled")
-						fd := ur.md.Fields().Get(i)
-						if p.P.T.Kind != TFloat {
-							for _, fv := range fieldValues(r, p.P) {
-								vd := validateField(val, ur.md, fd, fv)
-								evals++
-								if vd.Problem != "" {
-									res.Count("validator-problem")
-									res.Fail(vh.Failure{Case: caseNo, Stream: "validate", Sig: "C12 validator cannot evaluate the compiled constraint: " + firstWords(vd.Problem, 6),
-										Clause: "the standard validator evaluates the compiled constraints", Input: map[string]any{"j5s": p.P.J5S(theEnum), "value": fv.String()}, Got: vd.Problem})
-									continue
-								}
-								declared := ruleSem(theEnum, p.P, fv)
-								if vd.Accept {
-									res.Count("accept")
-								} else {
-									res.Count("reject")
-								}
-								if declared != vd.Accept {
-									res.Fail(vh.Failure{Case: caseNo, Stream: "validate", Sig: c12Sig(p, fv, declared, vd),
-										Clause: "the validator accepts a value iff it satisfies the declared rules",
-										Input:  map[string]any{"j5s": p.P.J5S(theEnum), "value": fv.String()},
-										Got:    map[string]any{"validator_accepts": vd.Accept, "violations": vd.Ids}, Want: map[string]any{"declared_rules_satisfied": declared}})
-								}
-								pairs = append(pairs, fmt.Sprintf("(%s, %s)", fv.Coq(), vh.BoolTerm(vd.Accept)))
-								if len(implVals) < 6 {
-									implVals = append(implVals, map[string]any{"value": fv.String(), "accept": vd.Accept})
-								}
-							}
-						}
-					} else {
-						res.Count("compile-failed")
-						if p.Class != "compile-error" {
-							res.Count("compile-failed-unexpected")
-							res.Fail(vh.Failure{Case: caseNo, Stream: "compile", Sig: "C12 valid field declaration does not compile: " + firstWords(ur.note, 10),
-								Clause: "for all valid j5s field declarations (the declaration compiles)", Input: map[string]any{"j5s": p.P.J5S(theEnum)}, Got: ur.note})
-						}
-					}
-					cf.Terms = append(cf.Terms, fmt.Sprintf("C12Case %s %d %s %s [%s]", theEnum.Coq(), idx, dterm, ur.obs[i], strings.Join(pairs, ";")))
-					res.Cases = append(res.Cases, vh.CaseRec{Case: caseNo, Stream: "decl", Input: map[string]any{"j5s": p.P.J5S(theEnum), "class": p.Class, "index": idx},
-						Impl: map[string]any{"emitted": ur.obs[i], "verdicts": implVals, "note": ur.note}})
-					if p.Class == "" && ur.ok[i] {
-						res.Sample(map[string]any{"j5s": p.P.J5S(theEnum), "emitted": ur.obs[i], "verdicts": implVals}, 6)
-					}
-					caseNo++
-				}
+			for _, ur := range compileProps(env, up) {
+				messages(ur)
+				fields(ur)
 			}
 		}
+		// ... and once more inside a message with the others, for the whole-message stream only
+		for _, p := range props {
+			if p.Class == "unevaluable-pattern" && len(together) > 0 {
+				mixed := append([]genDecl{p}, together...)
+				if len(mixed) > 4 {
+					mixed = mixed[:4]
+				}
+				for _, ur := range compileProps(env, mixed) {
+					messages(ur)
+				}
+				break
+			}
+		}
+	}
+	// ---- the regular-expression engine on its own: the Coq parser + derivative matcher
+	// against Go's regexp (which CEL's matches() uses), on expressions of the fragment,
+	// on ill-formed ones, and on texts around their languages
+	rr := cfg.R.Fork("C12Re")
+	for i, n := 0, cfg.Scale(260, 4000); i < n; i++ {
+		var pat string
+		switch {
+		case i < len(patterns):
+			pat = patterns[i]
+		case i < len(patterns)+len(badPatterns):
+			pat = badPatterns[i-len(patterns)]
+		case i == len(patterns)+len(badPatterns):
+			pat = id62.PatternString
+		case rr.Chance(15):
+			pat = genBadPattern(rr)
+		default:
+			pat = genPattern(rr)
+		}
+		re, cerr := regexp.Compile(pat)
+		var pairs []string
+		var shown []map[string]any
+		if cerr == nil {
+			texts := patternTexts(rr, pat)
+			if _, ok := patAST[pat]; !ok {
+				texts = patternStrings(rr, pat)
+			}
+			for _, s := range texts {
+				m := re.MatchString(s)
+				evals++
+				pairs = append(pairs, fmt.Sprintf("(%s, %s)", vh.RunesTerm(s), vh.BoolTerm(m)))
+				if len(shown) < 5 {
+					shown = append(shown, map[string]any{"text": s, "match": m})
+				}
+				if m {
+					res.Count("regex-match")
+				} else {
+					res.Count("regex-nomatch")
+				}
+			}
+			res.Count("regex-compiles")
+		} else {
+			res.Count("regex-refused")
+		}
+		cf.Terms = append(cf.Terms, fmt.Sprintf("C12Re %s %s [%s]", vh.RunesTerm(pat), vh.BoolTerm(cerr == nil), strings.Join(pairs, ";")))
+		res.Cases = append(res.Cases, vh.CaseRec{Case: caseNo, Stream: "regex", Input: map[string]any{"pattern": pat}, Impl: map[string]any{"compiles": cerr == nil, "matches": shown}})
+		caseNo++
 	}
 	res.Evaluations = evals
 	res.Distinct = len(distinct)
